@@ -1,7 +1,7 @@
 // C03 hostile tier (parts pbf + text): the REAL osmium::io::Reader on a memory buffer holding
 // arbitrary bytes presented as PBF, XML or OPL (optionally wrapped in gzip / bzip2 by the harness).
 //
-//   rd <assert 0|1> <fmt pbf|xml|opl|o5m> <comp none|gz|bz2> <types 0..15> <hex>
+//   rd <assert 0|1> <fmt pbf|xml|opl|o5m> <comp none|gz|bz2> <types 0..15> <hex>      (rdbig: same, 300 s watchdog)
 //       -> "ok <n objects> <header dump> | <object dump> | ..."      (harness/osm_dump.hpp)
 //       -> "err:<class of the std::exception>"
 //       -> "OOB:<where>"         the GUARDED walk found a traversal that leaves the item / buffer
@@ -572,9 +572,12 @@ int main() {
     while (std::getline(std::cin, line)) {
         const auto w = vh::words(line);
         std::string out;
-        alarm(10);
+        // `rdbig` = `rd` for the few inputs that legitimately need more than the 10 s watchdog
+        // (an object of more than 4 GiB built from a 4 KiB file: pages of an 8 GiB buffer)
+        const bool big = !w.empty() && w[0] == "rdbig";
+        alarm(big ? 300 : 10);
         try {
-            if (w.size() == 6 && w[0] == "rd") {
+            if (w.size() == 6 && (w[0] == "rd" || big)) {
                 std::string data;
                 if (!vh::unhex(w[5], data)) {
                     out = "bad-op";
